@@ -9,7 +9,7 @@ from ..common import run_rule
 from ..engine import Result
 from ..impl import build, mkrule, plan_graph_shards, shard_graphs
 from ..refmodel import spec_to_json
-from ..spaces import admissible_pairs, related, subject_object_choices, trees, KINDS
+from ..spaces import admissible_pairs, related, subject_object_choices, trees, KINDS, renamed_graph
 
 ID = "C12"
 RULE = (
@@ -35,6 +35,9 @@ def plan(tier, seed):
         shards = plan_graph_shards("A", n_max=5, chunk=16)
         shards += plan_graph_shards("B", n_max=6, n_min=6, k=2, parts=16)
         shards += plan_graph_shards("B", k=2, parts=8, with_ext=True, tree_list=list(trees(5)))
+    # the complete small space once more under the naming that makes siblings string prefixes of each other
+    shards += [dict(s, naming="adversarial", bound=s["bound"] + " naming=adversarial")
+               for s in plan_graph_shards("A", n_max=4, chunk=8 if tier == "quick" else 4)]
     return {
         "shards": shards,
         "require_nonzero": ["duality", "negation", "decomposition", "alias", "monotonic", "negation:PASS/FAIL", "negation:FAIL/PASS"],
@@ -142,6 +145,7 @@ def check_graph(ns, I, seed, res, mono_pairs):
 def run_shard(shard, tier, seed):
     res = Result(shard["bound"])
     for ns, I in shard_graphs(shard, seed):
+        ns, I = renamed_graph(ns, I, shard.get("naming", "identity"))
         res.states += 1
         ext = [n for n in ns if n.split(".")[0] != ns[0]]
         pairs = admissible_pairs(ns, root_importee=False, externals=ext)
